@@ -4,6 +4,7 @@ from models import cfg as M
 from sim.core import FAILED
 from sim.steps import LineBudget, BudgetExceeded
 
+from props import scaled as SC
 ID = "C15"
 CASES = {"quick": 2000, "thorough": 12000}
 RULE = ("seeded grammars (ambiguous, epsilon productions and epsilon subtrees, left recursion) x member and "
@@ -17,6 +18,9 @@ RD_BUDGET = 300000
 
 
 def gen(rng, tier):
+    sc = SC.maybe(rng, ID)
+    if sc is not None:
+        return sc
     from props.c14 import gen_ll1ish
     r = rng.random()
     if r < 0.3:
@@ -39,6 +43,12 @@ def gen(rng, tier):
 
 
 def shrink(case):
+    if SC.is_scaled(case):
+        return iter(())
+    return _shrink(case)
+
+
+def _shrink(case):
     return G.shrink_cfg(case)
 
 
@@ -115,6 +125,8 @@ def _unit_cycle(ref):
 
 
 def run(case, out):
+    if SC.is_scaled(case):
+        return SC.run(case, out)
     import random as _r
     from pyformlang.cfg.cyk_table import DerivationDoesNotExist
     from pyformlang.cfg.cfg import NotParsableException
